@@ -62,6 +62,8 @@ func c11Menu() []tokSlot {
 	for _, c := range []rune{'+', 'a', '{', 'é', 'ü'} {
 		m = append(m, tokSlot{Kind: "lit", Char: c}, tokSlot{Kind: "litprec", Char: c}, tokSlot{Kind: "lituse", Char: c})
 	}
+	// a literal that is a blank
+	m = append(m, tokSlot{Kind: "lit", Char: ' '}, tokSlot{Kind: "lituse", Char: ' '})
 	return m
 }
 
